@@ -353,3 +353,37 @@ Example ex_late_ack :
    flags (get s2' 0) = (true, false) /\
    snd (fst (start s2' 0)) = [OWire 5 1 [3; 2; 10] [3; 2]]).
 Proof. vm_compute. repeat split; reflexivity. Qed.
+
+(* ---------------------------------------------------------------- the table is installed after lookups were made (wave 16) *)
+(* whatever happened before (add_config attempts on the still empty table of the session ...), after the table
+   of the session is installed the lookups of add_config are made in THAT table *)
+Lemma installed_table_is_current s tc :
+  let s1 := fst (fst (step s (ESetToc tc))) in
+  s_toc s1 = Some tc /\ s_cfgs s1 = s_cfgs s /\ s_blocks s1 = s_blocks s /\ s_link s1 = s_link s /\
+  snd (fst (step s (ESetToc tc))) = [].
+Proof. cbn. auto. Qed.
+
+(* an early add_config (empty table: rejected), then the table arrives, the same configuration is accepted *)
+Example ex_early_add_then_table :
+  let evs := [ERefresh true; EPacket 1 [5; 0; 0]; ENew 100 1; EAddVar 0 1 1; EAddConfig 0] in
+  snd (add_config (final init_st (firstn 4 evs)) 0) = AccRejected KeyError /\
+  snd (add_config (final init_st (evs ++ [ESetToc ex_toc])) 0) = AccAccepted.
+Proof. vm_compute. split; reflexivity. Qed.
+
+(* the memoised variant (seeded/C05-p): get_element_by_id answers from an index built at the first lookup;
+   installing the table by assignment (`toc.toc = cached table`) does not invalidate it *)
+Record memo_toc := mkMemo { m_table : toc; m_index : option toc }.
+Definition memo_by_id (m : memo_toc) (i : Z) : memo_toc * option tentry :=
+  match m_index m with
+  | Some ix => (m, toc_by_id ix i)
+  | None => (mkMemo (m_table m) (Some (m_table m)), toc_by_id (m_table m) i)
+  end.
+Definition memo_install (m : memo_toc) (t : toc) : memo_toc := mkMemo t (m_index m).
+
+Example ex_memoised_index_refuted :
+  let m0 := mkMemo [] None in
+  let '(m1, r1) := memo_by_id m0 301 in                (* the early lookup: nothing there, index = {} *)
+  let m2 := memo_install m1 ex_toc in                  (* the cache hit installs the table *)
+  r1 = None /\ snd (memo_by_id m2 301) = None /\       (* the stale index still answers: not found *)
+  toc_by_id (m_table m2) 301 = Some (mkT 1 301 1).     (* although the element is in the table *)
+Proof. vm_compute. repeat split; reflexivity. Qed.
